@@ -1,11 +1,12 @@
-(* C11 — Breadth-first geodesics: true hop distances, valid paths, all and only shortest.  Statements only; proofs in Bfs.v / PathsProofs.v.
-   PARTIAL: proved are findVertexPredecessors (distances = hop minima over ALL walks, sentinel iff unreachable, the predecessor is an
-   in-neighbour one hop closer) and findGeodesics (a walk along existing edges with exactly that many hops, [source], or empty), for every
-   well-formed adjacency structure of any size - directed or undirected alike, since the search only sees neighbour lists.
-   findAllVertexPredecessors, findAllGeodesics and the ...FromVertex variants are tied to the implementation and to the brute-force spec
-   (all walks of minimal length) by the correspondence check only; their full statements are recorded below as definitions. *)
+(* C11 — Breadth-first geodesics: true hop distances, valid paths, all and only shortest.  Statements only; proofs in Bfs.v / PathsProofs.v / BfsAllProofs.v.
+   Proved, for every well-formed adjacency structure of any size - directed or undirected alike, since the searches only see neighbour lists:
+   findVertexPredecessors (distances = hop minima over ALL walks, sentinel iff unreachable, the predecessor is an in-neighbour one hop closer),
+   findGeodesics (a walk along existing edges with exactly that many hops, [source], or empty), findAllVertexPredecessors (same distances; the
+   predecessor list of v is duplicate-free and is exactly the set of in-neighbours one hop closer) and findAllGeodesics (exactly the
+   minimum-length walks, none twice).  PARTIAL: the two ...FromVertex variants (loops over all destinations around the proved functions) are
+   tied to the implementation and to the brute-force spec by the correspondence check only. *)
 From Coq Require Import List Arith Lia.
-From BG Require Import Base Bfs PathsModel PathsProofs.
+From BG Require Import Base Bfs PathsModel PathsProofs BfsAllProofs.
 Import ListNotations.
 
 Theorem C11_single_predecessor_search : forall (g : adjl) (s : nat), Bfs.wf g -> s < length g ->
@@ -29,14 +30,24 @@ Theorem C11_find_geodesics : forall (g : adjl) (s t : nat), Bfs.wf g -> s < leng
 Proof. intros g s t W Hs Ht. exact (find_geodesics_spec g s W Hs t Ht). Qed.
 Print Assumptions C11_find_geodesics.
 
-(* the part of the property that is NOT proved (correspondence + brute-force spec oracle only) *)
-Definition C11_all_predecessors_full_statement : Prop := forall (g : adjl) (s : nat), Bfs.wf g -> s < length g ->
+(* findAllVertexPredecessors *)
+Theorem C11_all_predecessors : forall (g : adjl) (s : nat), Bfs.wf g -> s < length g ->
   exists o, bfs_all true true (length g) g s = Val o /\
     (forall v, nth v (ao_dist o) None = hopdist g s v) /\
     (forall v, NoDup (nth v (ao_preds o) []) /\ forall p, In p (nth v (ao_preds o) []) <->
        (exists k, hopdist g s p = Some k /\ hopdist g s v = Some (S k) /\ In v (nth p g []))).
-Definition C11_all_geodesics_full_statement : Prop := forall (g : adjl) (s t : nat), Bfs.wf g -> s < length g -> t < length g ->
-  exists ps, find_all_geodesics true true (5000 + length g) g s t = Val ps /\ NoDup ps /\ forall p, In p ps <-> In p (shortest_paths g s t).
+Proof. exact BfsAllProofs.C11_all_predecessors. Qed.
+Print Assumptions C11_all_predecessors.
+(* findAllGeodesics: duplicate-free, exactly the minimum-length walks from source to destination (as vertex sequences).  Fuel is an artefact of
+   the model (the C++ loop has none): with at least |V| units the model returns these paths or reports exhaustion - never an exception or an
+   unchecked access - and |V| * (number of shortest paths) units always suffice, which is what the correspondence driver supplies. *)
+Theorem C11_find_all_geodesics : forall (g : adjl) (s t : nat), Bfs.wf g -> s < length g -> t < length g ->
+  exists ps, NoDup ps /\ (forall p, In p ps <-> In p (shortest_paths g s t)) /\
+    forall fuel, length g <= fuel ->
+      (find_all_geodesics true true fuel g s t = Val ps \/ find_all_geodesics true true fuel g s t = Undef Fuel) /\
+      (length g * length (shortest_paths g s t) <= fuel -> find_all_geodesics true true fuel g s t = Val ps).
+Proof. exact BfsAllProofs.find_all_geodesics_spec. Qed.
+Print Assumptions C11_find_all_geodesics.
 
 Example C11_example : find_geodesics true [[1; 2]; [3]; [3]; [4]; []; [0]] 0 4 = Val [0; 1; 3; 4] /\ find_geodesics true [[1; 2]; [3]; [3]; [4]; []; [0]] 0 5 = Val [].
 Proof. vm_compute. auto. Qed.
